@@ -76,6 +76,9 @@ def _join_attachment(ns_soap_env, href_id, envelope, payload, prefix=True,
     """
 
     # grab the XML element of the message in the SOAP body
+    if isinstance(envelope, six.text_type):
+        # lxml refuses text that carries an encoding declaration
+        envelope = envelope.encode('utf-8')
     soaptree = etree.fromstring(envelope, parser=parser)
     soapbody = soaptree.find("{%s}Body" % ns_soap_env)
 
